@@ -409,6 +409,20 @@ def run():
                                     "right_contexts": len(L.RIGHT_TERMINATORS) + len(L.RIGHT_OTHERS), "full_product": ck.thorough, "sources": len(wc)}
     # (a") the inner lexer of s-/f-strings: all contents of length <= 4 (thorough: 5) over its 9-character alphabet, corpus, seeded random
     R.interp_stream("interp-inner", L.interp_sources(ck.rng, ck.n(4, 5), ck.n(2500, 20000)))
+    # (a4) forward lexing: random lists of renderable tokens (identifiers incl. near misses of reserved words, keywords, true / false / null,
+    #      integers up to i64::MAX, control characters, operators, plain strings, parameters) written with one space between tokens: the
+    #      implementation must return exactly the tokens and spans c17_render_lex_roundtrip predicts; the sources also go through the
+    #      direct oracle and the model
+    rc = L.render_cases(ck.rng, info if "error" not in info else {}, ck.n(3000, 30000))
+    rans = harness("lex", [{"src": s} for s, _ in rc])
+    for (s, want), a in zip(rc, rans):
+        got = L.py_impl(a)
+        ck.count("render-roundtrip", L.key(s), nontrivial=True)
+        ck.stat("render-roundtrip", "tokens", len(want) - 1)
+        if got != want:
+            R.report("render-roundtrip", "rendered token list does not lex back to itself: %r -> %r, expected %r" % (s, got, want),
+                     {"src": s, "clause": "render-lex-roundtrip", "implementation": got if got is not None else a, "expected": want})
+    R.stream("render-roundtrip-sources", [s for s, _ in rc])
     # (b) exhaustive over the lexical alphabet: all strings of length <= 3; in the thorough tier also all of length 4
     #     when the measured rate allows it within ~15 minutes (otherwise a seeded sample of that length, recorded)
     import itertools
